@@ -89,6 +89,8 @@ def main(argv):
     allp = "--all-props" in argv
     if sel == "benign":
         return main_benign(argv[1:])
+    if sel == "benign-seeded":
+        return main_benign_seeded(argv[1:])
     ms = [m for m in load_mutants() if sel is None or sel.startswith("--") or m["id"].startswith(sel) or sel in m["properties"]]
     ok = 0
     for m in ms:
@@ -108,6 +110,73 @@ def main(argv):
         extra = {p: v for p, v in r["fired"].items() if v}
         print("%-34s %s fired=%s want=%s" % (m["id"], "CAUGHT" if hit else "MISSED", extra, sorted(want)))
     print("%d/%d caught" % (ok, len(ms)))
+
+
+BENIGN_DIR = os.path.join(runner.VERIF, "benign_seeded")
+
+
+def run_patch_dir(kind, sid, props=None):
+    """kind = 'seeded' | 'benign_seeded'."""
+    global BENIGN_DIR
+    saved = BENIGN_DIR
+    BENIGN_DIR = os.path.join(runner.VERIF, kind)
+    try:
+        return run_benign_patch(sid, props)
+    finally:
+        BENIGN_DIR = saved
+
+
+def run_benign_patch(sid, props=None):
+    """Apply benign_seeded/<sid>/patch.diff (a behaviour-preserving refactoring written by someone who had not
+    seen the checker) to a scratch copy of the current tree; return the rules that report it (none expected)."""
+    tmp, root = scratch_copy()
+    try:
+        subprocess.check_call(["git", "init", "-q"], cwd=root)
+        r = subprocess.run(["git", "apply", os.path.join(BENIGN_DIR, sid, "patch.diff")], cwd=root, stdout=subprocess.PIPE, stderr=subprocess.STDOUT, text=True)
+        if r.returncode != 0:
+            return {"id": sid, "status": "does-not-apply", "why": r.stdout[-200:]}
+        try:
+            etmp, facts = runner.extract(root)
+        except runner.InfraError as e:
+            return {"id": sid, "status": "does-not-compile", "why": str(e)[-400:]}
+        try:
+            res = {}
+            for prop in props or ["C%02d" % i for i in range(1, 19)]:
+                rc, ctx = runner.run_property(prop, "quick", facts, write_evidence=False, repo=root, quiet=True)
+                res[prop] = sorted({"%s: %s" % (o.rule, o.key[:80]) for o in ctx.obs if not o.ok and o.fkey() not in known_keys(prop)})
+            return {"id": sid, "status": "ran", "fired": res}
+        finally:
+            shutil.rmtree(etmp, ignore_errors=True)
+    finally:
+        shutil.rmtree(tmp, ignore_errors=True)
+
+
+def _benign_job(args):
+    import contextlib, io
+    sid, props = args
+    with contextlib.redirect_stdout(io.StringIO()):
+        return run_benign_patch(sid, props)
+
+
+def benign_seeded_ids():
+    return sorted(d for d in os.listdir(BENIGN_DIR) if os.path.exists(os.path.join(BENIGN_DIR, d, "patch.diff"))) if os.path.isdir(BENIGN_DIR) else []
+
+
+def main_benign_seeded(argv):
+    from concurrent.futures import ProcessPoolExecutor
+    ids = [i for i in benign_seeded_ids() if not argv or any(a in i for a in argv)]
+    bad = 0
+    with ProcessPoolExecutor(8) as ex:
+        for r in ex.map(_benign_job, [(i, None) for i in ids]):
+            if r["status"] != "ran":
+                print("%-20s %s: %s" % (r["id"], r["status"], r.get("why", "")))
+                bad += 1
+                continue
+            fired = {p: v for p, v in r["fired"].items() if v}
+            print("%-20s %s %s" % (r["id"], "FALSE-ALARM" if fired else "silent", json.dumps(fired)[:300] if fired else ""))
+            bad += 1 if fired else 0
+    print("%d/%d independent refactorings leave every check silent" % (len(ids) - bad, len(ids)))
+    return 1 if bad else 0
 
 
 def main_benign(argv):
